@@ -100,14 +100,14 @@ func PackValues(format string, values []rt.Value, budget uint64) (string, uint64
 			_ = p.align(0) &&
 				p.mustGetOptSize() &&
 				p.nextStringValue() &&
-				p.writeStr(p.optSize)
+				p.writeStr(p.optSize, true)
 		case 'z':
 			if p.align(0) && p.nextStringValue() {
 				if strings.IndexByte(p.strVal, 0) >= 0 {
 					p.err = errStringContainsZeros
 				} else {
 
-					_ = p.writeStr(0) &&
+					_ = p.writeStr(0, false) &&
 						p.writeByte(0)
 				}
 			}
@@ -199,7 +199,7 @@ func (p *packer) checkBounds(min, max int64) bool {
 }
 
 func (p *packer) checkFloatSize(max float64) bool {
-	ok := (p.floatVal >= -max && p.floatVal <= max) || math.IsInf(p.floatVal, 0)
+	ok := (p.floatVal >= -max && p.floatVal <= max) || math.IsInf(p.floatVal, 0) || math.IsNaN(p.floatVal)
 	if !ok {
 		p.err = errOutOfBounds
 	}
@@ -232,9 +232,9 @@ func (p *packer) consumeBudget(amount uint64) bool {
 	return true
 }
 
-func (p *packer) writeStr(maxLen uint) bool {
+func (p *packer) writeStr(maxLen uint, fixedLen bool) bool {
 	diff := 0
-	if maxLen > 0 {
+	if fixedLen {
 		diff = int(maxLen) - len(p.strVal)
 	}
 	if diff < 0 {
